@@ -461,8 +461,6 @@ Qed.
 (* ================================================================== *)
 (* witnesses, examples *)
 
-Definition N_of_ascii_b : str := [98]%N.        (* "b" *)
-
 (* `a \textbf b`: the bare-token argument holds a plain str; search_regex("b")
    raises AttributeError (same on the code) -- "search_regex reports every
    match" is false outside the no-bare-argument grammar *)
